@@ -63,7 +63,12 @@ func (h *NTLMAuth) Authenticate(message *auth.NtlmRequest) (r *auth.NtlmResponse
 	c := h.getContext(message.Session)
 	err = c.Authenticate(message.NtlmMessage, r)
 
-	if err != nil || r.Authenticated {
+	// Keep the context only while an exchange is in progress, i.e. when a
+	// challenge was just issued. A server session must not examine a second
+	// authenticate message: go-ntlm caches the response keys of the first
+	// user it looked up, so a rejected attempt followed by another one in
+	// the same session would be verified against the wrong user's keys.
+	if err != nil || r.Authenticated || r.NtlmMessage == "" {
 		h.removeContext(message.Session)
 	}
 
